@@ -296,7 +296,30 @@ fn euler_val_(x: Sym, y: Sym, z: Sym, rng: &mut Rng) -> V {
         Val::EDeg(Euler::new(Deg(Q::dec_ang(x, Unit::Deg)), Deg(Q::dec_ang(y, Unit::Deg)), Deg(Q::dec_ang(z, Unit::Deg))))
     }
 }
-fn gen_c07(_p: &Pools, rng: &mut Rng, pb: &mut PB) {
+fn gimbal_pool() -> Vec<[i128; 5]> {
+    // rational unit quaternions whose rotation has |sin y| = |2(xz + yw)| in (0.99, 1): inside and just outside the gimbal-lock cone
+    let mut v = Vec::new();
+    let r = 12i128;
+    for w in -r..=r { for x in -r..=r { for y in -r..=r { for z in -r..=r {
+        let s = w * w + x * x + y * y + z * z;
+        if s == 0 { continue; }
+        if let Some(m) = isqrt(s) {
+            let sy = 2 * (x * z + y * w);
+            if 1000 * sy.abs() > 990 * s && sy.abs() < s && m <= 25 { v.push([w, x, y, z, m]); }
+        }
+    }}}}
+    v
+}
+thread_local! { static GIMBAL: Vec<[i128; 5]> = gimbal_pool(); }
+fn gen_c07(p: &Pools, rng: &mut Rng, pb: &mut PB) {
+    if rng.chance(1, 3) {
+        // pipeline C: extraction on arbitrary rational unit quaternions, including the inside of the gimbal-lock cone
+        let e = if rng.chance(1, 2) { GIMBAL.with(|g| if g.is_empty() { p.u4[0] } else { g[rng.below(g.len())] }) } else { p.u4[rng.below(p.u4.len())] };
+        let qq = Quaternion::new(q(e[0], e[4]), q(e[1], e[4]), q(e[2], e[4]), q(e[3], e[4]));
+        let r = pb.load(Val::Q(qq));
+        pb.call("euler_proj", "m", &[r]);
+        return;
+    }
     match rng.below(4) {
         0 => {
             let ty = *rng.pick(ROT3);
@@ -642,6 +665,19 @@ fn gen_c11(p: &Pools, rng: &mut Rng, pb: &mut PB) {
 // ------------------------------------------------------------------ C13
 fn gen_c13(_p: &Pools, rng: &mut Rng, pb: &mut PB) {
     let unit = *rng.pick(&["Rad", "Deg"]);
+    if rng.chance(1, 4) {
+        // pipeline C: rounding clauses on native values (tiny negatives, huge magnitudes, ordinary values)
+        let tt = pb.load(t(unit));
+        match rng.below(3) {
+            0 => { let x = *rng.pick(&[q(1, 3), q(-7, 3), q(100, 7), q(123456, 1), q(-1, 1000), q(355, 113), q(1, 1), q(90, 1), q(-36000, 7), q(1, 999)]);
+                   let rx = pb.load(vs(x)); pb.call("unit_roundtrip", "m", &[tt, rx]); }
+            1 => { let x = *rng.pick(&[q(-1, 1000000), q(1, 1000000), q(1000001, 1), q(-1000001, 3), q(0, 1), q(360, 1), q(-360, 1), q(180, 1), q(-180, 1), q(710, 113),
+                                       q(-355, 113), q(720, 1), q(12345, 7), q(-99999, 1), q(1, 3), q(540, 1)]);
+                   let rx = pb.load(vs(x)); pb.call("normalize_native", "m", &[tt, rx]); }
+            _ => { let k = pb.load(Val::I(*rng.pick(&[2i64, 3, 4, 6]))); pb.call("turn_div_exact", "m", &[tt, k]); pb.call("full_turn_value", "m", &[tt]); }
+        }
+        return;
+    }
     let mk = |s: Sym| if unit == "Rad" { rad_val(s) } else { deg_val(s) };
     // multiples of 1/8 turn in [-3, 3] turns (quarter-turn part with denominator 2), optionally a table offset
     let eighth = |rng: &mut Rng| Sym { an: rng.range(-24, 24), ad: 2, k1: 0, k2: 0 };
@@ -734,7 +770,25 @@ fn gen_c13(_p: &Pools, rng: &mut Rng, pb: &mut PB) {
 }
 
 // ------------------------------------------------------------------ C14
+/// a rational unit quaternion for a small rotation: w = (n^2 - 1)/(n^2 + 1), one axis component 2n/(n^2 + 1)
+fn small_rot(rng: &mut Rng) -> Quaternion<Q> {
+    let n = *rng.pick(&[40i128, 50, 64, 70, 80, 100, 30, 25]); // n >= 64: dot above 0.9995; below: under the hand-over threshold
+    let (w, s) = (q(n * n - 1, n * n + 1), q(2 * n, n * n + 1));
+    let s = if rng.chance(1, 2) { s } else { -s };
+    match rng.below(3) { 0 => Quaternion::new(w, s, q(0, 1), q(0, 1)), 1 => Quaternion::new(w, q(0, 1), s, q(0, 1)), _ => Quaternion::new(w, q(0, 1), q(0, 1), s) }
+}
 fn gen_c14(p: &Pools, rng: &mut Rng, pb: &mut PB) {
+    if rng.chance(2, 5) {
+        // pipeline C: arbitrary t and arbitrary arcs, judged through integer projections of the native result
+        let a = { let e = p.u4[rng.below(p.u4.len())]; if e[4] > 5 { return; } Quaternion::new(q(e[0], e[4]), q(e[1], e[4]), q(e[2], e[4]), q(e[3], e[4])) };
+        let mut b = if rng.chance(1, 2) { a * small_rot(rng) } else { let e = p.u4[rng.below(p.u4.len())]; if e[4] > 5 { return; } Quaternion::new(q(e[0], e[4]), q(e[1], e[4]), q(e[2], e[4]), q(e[3], e[4])) };
+        if rng.chance(1, 2) { b = -b; }
+        let tq = *rng.pick(&[q(0, 1), q(1, 1), q(1, 2), q(1, 3), q(1, 4), q(2, 3), q(3, 4), q(1, 5), q(7, 8), q(1, 10), q(9, 10)]);
+        let (ra, rb, rt) = (pb.load(Val::Q(a)), pb.load(Val::Q(b)), pb.load(vs(tq)));
+        pb.call("slerp_proj", "m", &[ra, rb, rt]);
+        pb.call("nlerp_proj", "m", &[ra, rb, rt]);
+        return;
+    }
     match rng.below(4) {
         0 => {
             // slerp along a great circle: b = +-(a cos g + c sin g) with g an acute table angle and t*g a table angle
@@ -785,11 +839,13 @@ fn gen_c14(p: &Pools, rng: &mut Rng, pb: &mut PB) {
 }
 
 // ------------------------------------------------------------------ C15
+/// unit 3-vectors with denominators <= 9: the rotation matrix of an arc has denominators of the order of the product of the squares
+fn uv3s(p: &Pools, rng: &mut Rng) -> Vector3<Q> { loop { let v = uv3(p, rng); if v.x.d <= 9 && v.y.d <= 9 && v.z.d <= 9 { return v; } } }
 fn gen_c15(p: &Pools, rng: &mut Rng, pb: &mut PB) {
     match rng.below(4) {
         0 | 1 => {
-            let a = uv3(p, rng);
-            let b = match rng.below(6) { 0 => a, 1 => -a, _ => uv3(p, rng) };
+            let a = uv3s(p, rng);
+            let b = match rng.below(6) { 0 => a, 1 => -a, _ => uv3s(p, rng) };
             let ty = *rng.pick(&["Quaternion", "Basis3"]);
             let (tt, ra, rb) = (pb.load(t(ty)), pb.load(Val::V3(a)), pb.load(Val::V3(b)));
             let r = pb.call("between_vectors", "m", &[tt, ra, rb]);
@@ -803,9 +859,9 @@ fn gen_c15(p: &Pools, rng: &mut Rng, pb: &mut PB) {
             pb.call("rotate_vector", "m", &[r, ra]);
         }
         _ => {
-            let scale = |rng: &mut Rng| *rng.pick(&[q(1, 1), q(2, 1), q(1, 3), q(5, 2), q(1, 100), q(100, 1)]);
-            let src = uv3(p, rng) * scale(rng);
-            let dst = match rng.below(6) { 0 => src * small_pos(rng), 1 => -src * small_pos(rng), _ => uv3(p, rng) * scale(rng) };
+            let scale = |rng: &mut Rng| *rng.pick(&[q(1, 1), q(2, 1), q(1, 3), q(5, 2), q(1, 10), q(10, 1)]);
+            let src = uv3s(p, rng) * scale(rng);
+            let dst = match rng.below(6) { 0 => src * small_pos(rng), 1 => -src * small_pos(rng), _ => uv3s(p, rng) * scale(rng) };
             let opposite = src.cross(dst) == Vector3::new(q(0, 1), q(0, 1), q(0, 1)) && src.dot(dst) < q(0, 1);
             let fb = if opposite && rng.chance(1, 2) {
                 // a unit axis perpendicular to src
@@ -814,7 +870,7 @@ fn gen_c15(p: &Pools, rng: &mut Rng, pb: &mut PB) {
                 let perp = src.cross(Vector3::new(q(1, 1), q(2, 1), q(-2, 1)));
                 let m2 = perp.dot(perp);
                 match (isqrt(m2.n), isqrt(m2.d)) { (Some(a), Some(b)) if a != 0 => Val::OSome(Box::new(Val::V3(perp * q(b, a)))), _ => Val::ONone }
-            } else if !opposite && rng.chance(1, 3) { Val::OSome(Box::new(Val::V3(uv3(p, rng)))) } else { Val::ONone };
+            } else if !opposite && rng.chance(1, 3) { Val::OSome(Box::new(Val::V3(uv3s(p, rng)))) } else { Val::ONone };
             let (rs, rd, rf) = (pb.load(Val::V3(src)), pb.load(Val::V3(dst)), pb.load(fb));
             pb.call("from_arc", "m", &[rs, rd, rf]);
         }
